@@ -180,6 +180,14 @@ impl Family for C04Family {
         let mut op = plain_op(kind);
         op.user = vec![cell.outcome];
         op.yields = gen_yields(&mut r, 10, 2);
+        // one run in six: the authenticator was first used (getInfo) while the user-validation method
+        // reported another verification capability; the cell's capability is what it reports from then on
+        if r.chance(1, 6) {
+            let before = *r.pick(&VERIF.iter().copied().filter(|v| *v != cell.verification).collect::<Vec<_>>());
+            actor.verification = before;
+            actor.ops.push(plain_op(OpKind::GetInfo { via_trait: false }));
+            actor.ops.push(plain_op(OpKind::SetCapability { capability: c.store.capability, verification: cell.verification }));
+        }
         // now and then the store changes while the prompt is open: another authenticator on the same
         // shared store registers a newer credential for the RP (what a sync would do)
         let contended = !cell.make && r.chance(1, 6);
@@ -218,7 +226,7 @@ impl Family for C04Family {
         let rec = run_and_measure(c, stats);
         let mut j = Judge::new("C04", scn, &rec);
         stats.cells_total = CELLS;
-        for p in ["two_matching_credentials", "consent_missing_twin_compared", "success_with_unrequested_verification", "success_without_any_requirement", "denied_by_user", "validation_error", "uv_requested_without_capability", "store_changed_during_prompt"] {
+        for p in ["two_matching_credentials", "consent_missing_twin_compared", "success_with_unrequested_verification", "success_without_any_requirement", "denied_by_user", "validation_error", "uv_requested_without_capability", "store_changed_during_prompt", "verification_capability_changed_before_ceremony"] {
             stats.declare_probe(p);
         }
         if rec.panic.is_some() || rec.outcome != Outcome2::Done {
@@ -229,13 +237,26 @@ impl Family for C04Family {
             stats.cells.insert(u64::from(cell));
             stats.nontrivial.insert(u64::from(cell));
         }
-        let Some(o) = rec.op(0, 0) else { return Vec::new() };
+        // the cell's ceremony is the last operation of the first actor (harness operations may precede it)
+        let t = c.actors[0].ops.len() - 1;
+        let Some(o) = rec.op(0, t) else { return Vec::new() };
+        // verification capability in force at the ceremony
+        let verification_now = c.actors[0].ops[..t]
+            .iter()
+            .rev()
+            .find_map(|x| match &x.kind {
+                OpKind::SetCapability { verification, .. } => Some(*verification),
+                _ => None,
+            })
+            .unwrap_or(c.actors[0].verification);
+        if verification_now != c.actors[0].verification {
+            stats.probe("verification_capability_changed_before_ceremony");
+        }
         if c.prelude.iter().filter(|p| p.rp_id == RP).count() > 1 {
             stats.probe("two_matching_credentials");
         }
         let spec = op_spec(c, o);
         let kind = &spec.kind;
-        let actor = &c.actors[0];
         // what was required of the user
         let (req_up, req_uv) = match kind {
             OpKind::MakeCredential(s) => (s.up, s.uv),
@@ -247,7 +268,7 @@ impl Family for C04Family {
         let mut asked: Option<(Option<Vec<u8>>, bool, bool)> = None;
         let mut reported: Option<Result<(bool, bool), u8>> = None;
         let mut user_seq = 0;
-        for e in rec.events_of(0, 0) {
+        for e in rec.events_of(0, t) {
             match &e.ev {
                 Ev::UserCall { shown, up, uv } => asked = Some((shown.clone(), *up, *uv)),
                 Ev::UserRet { result } => {
@@ -260,7 +281,7 @@ impl Family for C04Family {
         let app = applied(&rec, o);
         let ok = o.result.is_ok();
         // another authenticator's record was accepted between this ceremony's prompt and its answer
-        let call_seq = rec.events_of(0, 0).find_map(|e| matches!(e.ev, Ev::UserCall { .. }).then_some(e.seq));
+        let call_seq = rec.events_of(0, t).find_map(|e| matches!(e.ev, Ev::UserCall { .. }).then_some(e.seq));
         if let Some(cs) = call_seq {
             if rec.events.iter().any(|e| e.task != 0 && e.seq > cs && e.seq < user_seq && matches!(e.ev, Ev::Applied { .. })) {
                 stats.probe("store_changed_during_prompt");
@@ -301,7 +322,7 @@ impl Family for C04Family {
             _ => false,
         };
         let mut must_fail: Vec<&str> = Vec::new();
-        if req_uv && actor.verification != Some(true) {
+        if req_uv && verification_now != Some(true) {
             must_fail.push("verification requested on an authenticator whose verification is absent or unconfigured");
             stats.probe("uv_requested_without_capability");
         }
@@ -357,7 +378,7 @@ impl Family for C04Family {
             stats.runs += 1;
             stats.steps += rec2.steps + rec2.events.len() as u64;
             stats.probe("consent_missing_twin_compared");
-            if let Some(o2) = rec2.op(0, 0) {
+            if let Some(o2) = rec2.op(0, t) {
                 let (a, b) = (short_result(&o.result), short_result(&o2.result));
                 if a != b {
                     j.fail("existence-leak-without-consent", format!("consent is missing (required presence={req_up} verification={req_uv}, reported {reported:?}); with a matching credential the result is {a:?}, without it {b:?}"));
